@@ -14,6 +14,7 @@ Section TyInd.
   Hypothesis Hgen : forall k c ps, Forall P ps -> P (TGen k c ps).
   Hypothesis Htup : forall k c ps, Forall P ps -> P (TTup k c ps).
   Hypothesis Hcall : forall k c ps, Forall P ps -> P (TCall k c ps).
+  Hypothesis Hvar : forall n sc hb ps, Forall P ps -> P (TVar n sc hb ps).
   Fixpoint ty_ind' (t : ty) : P t :=
     let fix go (l : list ty) : Forall P l :=
       match l with
@@ -29,6 +30,7 @@ Section TyInd.
     | TGen k c ps => Hgen k c ps (go ps)
     | TTup k c ps => Htup k c ps (go ps)
     | TCall k c ps => Hcall k c ps (go ps)
+    | TVar n sc hb ps => Hvar n sc hb ps (go ps)
     end.
 End TyInd.
 
@@ -75,6 +77,13 @@ Proof.
   - intros E; inversion E; subst.
     change (kind_eqb k0 k0 && Nat.eqb c0 c0 && tys_eqb ps0 ps0 = true).
     rewrite !andb_true_iff, kind_eqb_eq, Nat.eqb_eq. repeat split. apply (tys_eqb_eq _ H). reflexivity.
+  - change (Nat.eqb n n0 && Nat.eqb sc sc0 && Bool.eqb hb hb0 && tys_eqb ps ps0 = true
+            -> TVar n sc hb ps = TVar n0 sc0 hb0 ps0).
+    rewrite !andb_true_iff, !Nat.eqb_eq, Bool.eqb_true_iff. intros [[[? ?] ?] E].
+    apply (tys_eqb_eq _ H) in E. congruence.
+  - intros E; inversion E; subst.
+    change (Nat.eqb n0 n0 && Nat.eqb sc0 sc0 && Bool.eqb hb0 hb0 && tys_eqb ps0 ps0 = true).
+    rewrite !andb_true_iff, !Nat.eqb_eq, Bool.eqb_true_iff. repeat split. apply (tys_eqb_eq _ H). reflexivity.
 Qed.
 
 Lemma ty_eqb_refl : forall a, ty_eqb a a = true.
@@ -266,6 +275,36 @@ Proof.
   repeat split; try assumption; [congruence|]. eapply last_or_pw; eassumption.
 Qed.
 
+(* a type parameter is its upper value *)
+Definition upper (hb : bool) (ps : list ty) : ty :=
+  match ps with
+  | [] => TAny
+  | b :: cs => if hb then match cs with [] => b | _ => TUnion cs end else TUnion (b :: cs)
+  end.
+Lemma admits_var : forall H n sc hb ps v, admits H (TVar n sc hb ps) v <-> admits H (upper hb ps) v.
+Proof. intros H n sc hb ps v. destruct ps as [|b cs]; simpl; [tauto|]. destruct hb; destruct cs; simpl; tauto. Qed.
+Lemma union_pw : forall H qs ps, pw H qs ps -> length ps = length qs -> wider H (TUnion qs) (TUnion ps).
+Proof.
+  induction 1; intros L v A.
+  - destruct qs; [assumption | discriminate].
+  - apply admits_union in A. destruct A as [t [[<-|Hin] A]]; apply admits_union.
+    + exists p. split; [left; reflexivity | apply H0; assumption].
+    + assert (A' : admits H (TUnion ps) v).
+      { apply IHpw; [simpl in L; lia|]. apply admits_union. exists t; auto. }
+      apply admits_union in A'. destruct A' as [t' [Hin' A']]. exists t'. split; [right; assumption | assumption].
+Qed.
+Lemma wider_var : forall H n sc hb qs ps, pw H qs ps -> length ps = length qs ->
+  wider H (TVar n sc hb qs) (TVar n sc hb ps).
+Proof.
+  intros H n sc hb qs ps P L v. rewrite !admits_var. destruct P as [qs|q p qs ps W P].
+  - destruct qs; [auto | discriminate].
+  - simpl in L. assert (L' : length ps = length qs) by lia.
+    unfold upper. destruct hb.
+    + destruct qs as [|q' qs']; destruct ps as [|p' ps']; try discriminate; [apply W|].
+      apply (union_pw H (q' :: qs') (p' :: ps')); assumption.
+    + apply (union_pw H (q :: qs) (p :: ps)); [constructor; assumption | simpl; lia].
+Qed.
+
 Lemma pw_map : forall H (f : ty -> ty) l, Forall (fun t => wider H t (f t)) l -> pw H l (map f l).
 Proof. induction 1; simpl; constructor; assumption. Qed.
 
@@ -337,6 +376,7 @@ Section VisitWidens.
   Hypothesis I_gen : forall k c ps, I (TGen k c ps) -> Forall I ps.
   Hypothesis I_tup : forall k c ps, I (TTup k c ps) -> Forall I ps.
   Hypothesis I_call : forall k c ps, I (TCall k c ps) -> Forall I ps.
+  Hypothesis I_var : forall n sc hb ps, I (TVar n sc hb ps) -> Forall I ps.
   Hypothesis I_visit : forall t, I t -> I (visit fU fG fN fB t).
   Hypothesis fU_ok : forall l, Forall I l -> wider H (TUnion l) (fU l).
   Hypothesis fG_ok : forall k c ps, wider H (TGen k c ps) (fG k c ps).
@@ -363,6 +403,7 @@ Section VisitWidens.
     - eapply wider_trans; [|apply fG_ok]. apply wider_gen. apply visit_children; eauto.
     - pose proof (visit_children ps H0 (I_tup _ _ _ It)) as P. apply wider_tup; [assumption | apply map_length].
     - pose proof (visit_children ps H0 (I_call _ _ _ It)) as P. apply wider_call; [assumption | apply map_length].
+    - pose proof (visit_children ps H0 (I_var _ _ _ _ It)) as P. apply wider_var; [assumption | apply map_length].
   Qed.
 End VisitWidens.
 
@@ -375,6 +416,8 @@ Lemma wf_tup_inv : forall k k' c ps, wf k (TTup k' c ps) -> Forall (wf k) ps.
 Proof. intros k k' c ps W; inversion W; assumption. Qed.
 Lemma wf_call_inv : forall k k' c ps, wf k (TCall k' c ps) -> Forall (wf k) ps.
 Proof. intros k k' c ps W; inversion W; assumption. Qed.
+Lemma wf_var_inv : forall k n sc hb ps, wf k (TVar n sc hb ps) -> Forall (wf k) ps.
+Proof. intros k n sc hb ps W; inversion W; assumption. Qed.
 
 Section VisitWf.
   Variable fU : list ty -> ty.
@@ -399,6 +442,9 @@ Section VisitWf.
       constructor; [assumption|]. apply Forall_forall. intros x Hx.
       apply in_map_iff in Hx. destruct Hx as [t [<- Hin]]. rewrite Forall_forall in H, Wp. auto.
     - pose proof (wf_call_inv _ _ _ _ W) as Wp. inversion W; subst. unfold id_kind. constructor.
+      apply Forall_forall. intros x Hx.
+      apply in_map_iff in Hx. destruct Hx as [t [<- Hin]]. rewrite Forall_forall in H, Wp. auto.
+    - pose proof (wf_var_inv _ _ _ _ _ W) as Wp. constructor.
       apply Forall_forall. intros x Hx.
       apply in_map_iff in Hx. destruct Hx as [t [<- Hin]]. rewrite Forall_forall in H, Wp. auto.
   Qed.
@@ -705,6 +751,7 @@ Proof.
   - intros k0 c ps; apply wf_gen_inv.
   - intros k0 c ps; apply wf_tup_inv.
   - intros k0 c ps; apply wf_call_inv.
+  - intros n sc hb ps; apply wf_var_inv.
   - apply simplify_superclasses_wf.
   - intros; apply (suws_union_wider H k); assumption.
   - intros; apply wider_refl.
@@ -1030,6 +1077,9 @@ Proof.
   - destruct (map_opt (cc f) ps) as [ps'|] eqn:Em; [|discriminate]. simpl in E. inversion E; subst.
     destruct (Ch _ _ (wf_call_inv _ _ _ _ W) Em) as [P [L F']].
     split; [apply wider_call; assumption | inversion W; subst; constructor; assumption].
+  - destruct (map_opt (cc f) ps) as [ps'|] eqn:Em; [|discriminate]. simpl in E. inversion E; subst.
+    destruct (Ch _ _ (wf_var_inv _ _ _ _ _ W) Em) as [P [L F']].
+    split; [apply wider_var; assumption | constructor; assumption].
 Qed.
 
 Lemma combine_containers_widens_lemma : forall H k t, wf k t -> wider H t (combine_containers t).
@@ -1187,22 +1237,24 @@ Proof.
 Qed.
 
 (* the shape every unit-level pass has *)
+Definition unit_map_t (gc : const -> const) (gm : cid -> func -> func) (gcc : const -> const)
+           (gf : func -> func) (ft : ty -> ty) (u : unit_) : unit_ :=
+  mkUnit (map gc (u_consts u)) (map (map_class_t gm gcc ft) (u_classes u)) (map gf (u_funcs u)).
 Definition unit_map (gc : const -> const) (gm : cid -> func -> func) (gcc : const -> const)
-           (gf : func -> func) (u : unit_) : unit_ :=
-  mkUnit (map gc (u_consts u)) (map (map_class gm gcc) (u_classes u)) (map gf (u_funcs u)).
+           (gf : func -> func) : unit_ -> unit_ := unit_map_t gc gm gcc gf same_ty.
 
 Lemma Forall_map_pres : forall {A} (Q : A -> Prop) (g : A -> A) l,
   (forall x, Q x -> Q (g x)) -> Forall Q l -> Forall Q (map g l).
 Proof. intros A Q g l Hg F. induction F; simpl; constructor; auto. Qed.
 
-Lemma unit_map_wf : forall gc gm gcc gf u,
+Lemma unit_map_wf : forall gc gm gcc gf ft u,
   (forall c, wf_const c -> wf_const (gc c)) ->
   (forall n f, wf_func f -> wf_func (gm n f)) ->
   (forall c, wf_const c -> wf_const (gcc c)) ->
   (forall f, wf_func f -> wf_func (gf f)) ->
-  Forall P (types_of_unit u) -> Forall P (types_of_unit (unit_map gc gm gcc gf u)).
+  Forall P (types_of_unit u) -> Forall P (types_of_unit (unit_map_t gc gm gcc gf ft u)).
 Proof.
-  intros gc gm gcc gf u Hc Hm Hcc Hf W. apply wf_unit_iff in W. destruct W as [W1 [W2 W3]].
+  intros gc gm gcc gf ft u Hc Hm Hcc Hf W. apply wf_unit_iff in W. destruct W as [W1 [W2 W3]].
   apply wf_unit_iff. simpl. repeat split.
   - apply Forall_map_pres; assumption.
   - apply Forall_map_pres; [|assumption]. intros cl [M C]. unfold wf_class; simpl. split.
@@ -1211,14 +1263,14 @@ Proof.
   - apply Forall_map_pres; assumption.
 Qed.
 
-Lemma unit_map_wider : forall H gc gm gcc gf u,
+Lemma unit_map_wider : forall H gc gm gcc gf ft u,
   (forall c, wf_const c -> const_wider H c (gc c)) ->
   (forall n f, wf_func f -> func_wider H f (gm n f)) ->
   (forall c, wf_const c -> const_wider H c (gcc c)) ->
   (forall f, wf_func f -> func_wider H f (gf f)) ->
-  Forall P (types_of_unit u) -> unit_wider H u (unit_map gc gm gcc gf u).
+  Forall P (types_of_unit u) -> unit_wider H u (unit_map_t gc gm gcc gf ft u).
 Proof.
-  intros H gc gm gcc gf u Hc Hm Hcc Hf W. apply wf_unit_iff in W. destruct W as [W1 [W2 W3]].
+  intros H gc gm gcc gf ft u Hc Hm Hcc Hf W. apply wf_unit_iff in W. destruct W as [W1 [W2 W3]].
   rewrite Forall_forall in W1, W2, W3. unfold unit_wider; simpl. repeat split.
   - apply Forall2_map_r. intros; apply Hc; auto.
   - apply Forall2_map_r. intros cl Hcl. destruct (W2 cl Hcl) as [M C]. rewrite Forall_forall in M, C.
@@ -1228,9 +1280,9 @@ Proof.
   - apply Forall2_map_r. intros; apply Hf; auto.
 Qed.
 
-Lemma unit_map_hier : forall gc gm gcc gf u, hier_of (unit_map gc gm gcc gf u) = hier_of u.
+Lemma unit_map_hier : forall gc gm gcc gf ft u, hier_of (unit_map_t gc gm gcc gf ft u) = hier_of u.
 Proof.
-  intros. unfold hier_of, unit_map; simpl. rewrite map_map. reflexivity.
+  intros. unfold hier_of, unit_map_t; simpl. rewrite map_map. reflexivity.
 Qed.
 
 (* --- signature-level building blocks *)
@@ -1246,11 +1298,11 @@ Proof.
   destruct (p_mut p); simpl; auto.
 Qed.
 
-Lemma map_sig3_wf : forall fp fr fe s,
+Lemma map_sig3_wf : forall fp fr fe ft s,
   (forall t, P t -> P (fp t)) -> (forall t, P t -> P (fr t)) -> (forall t, P t -> P (fe t)) ->
-  wf_sig s -> wf_sig (map_sig3 fp fr fe s).
+  wf_sig s -> wf_sig (map_sig4 fp fr fe ft s).
 Proof.
-  intros fp fr fe s Hp Hr He [Pp [S [SS [R E]]]]. unfold wf_sig, map_sig3; simpl. repeat split.
+  intros fp fr fe ft s Hp Hr He [Pp [S [SS [R E]]]]. unfold wf_sig, map_sig4; simpl. repeat split.
   - apply Forall_forall. intros x Hx. apply in_map_iff in Hx. destruct Hx as [p [<- Hin]].
     apply map_param_wf; [assumption|]. rewrite Forall_forall in Pp; auto.
   - destruct (s_star s); simpl; [apply map_param_wf; assumption | exact I].
@@ -1259,11 +1311,11 @@ Proof.
   - apply Forall_forall. intros x Hx. apply in_map_iff in Hx. destruct Hx as [p [<- Hin]].
     rewrite Forall_forall in E; auto.
 Qed.
-Lemma map_sig3_wider : forall H fp fr fe s,
+Lemma map_sig3_wider : forall H fp fr fe ft s,
   (forall t, P t -> wider H t (fp t)) -> (forall t, P t -> wider H t (fr t)) ->
-  wf_sig s -> sig_wider H s (map_sig3 fp fr fe s).
+  wf_sig s -> sig_wider H s (map_sig4 fp fr fe ft s).
 Proof.
-  intros H fp fr fe s Hp Hr [Pp [S [SS [R E]]]]. unfold sig_wider, map_sig3; simpl. repeat split.
+  intros H fp fr fe ft s Hp Hr [Pp [S [SS [R E]]]]. unfold sig_wider, map_sig4; simpl. repeat split.
   - apply Forall2_map_r. intros p Hin. eapply map_param_wider; [eassumption|]. rewrite Forall_forall in Pp; auto.
   - destruct (s_star s); simpl; [eapply map_param_wider; eassumption | exact I].
   - destruct (s_starstar s); simpl; [eapply map_param_wider; eassumption | exact I].
@@ -1279,28 +1331,29 @@ Proof.
   exists (g s). split; [apply in_map; assumption|]. apply Hg. unfold wf_func in W. rewrite Forall_forall in W; auto.
 Qed.
 
-Lemma map_unit4_eq : forall fp fr fe fc u,
-  map_unit4 fp fr fe fc u =
-  unit_map (map_const fc) (fun _ => map_func (map_sig3 fp fr fe)) (map_const fc) (map_func (map_sig3 fp fr fe)) u.
+Lemma map_unit4_eq : forall fp fr fe fc ft u,
+  map_unit5 fp fr fe fc ft u =
+  unit_map_t (map_const fc) (fun _ => map_func (map_sig4 fp fr fe ft)) (map_const fc)
+             (map_func (map_sig4 fp fr fe ft)) ft u.
 Proof. reflexivity. Qed.
 
-Lemma map_unit4_wf : forall fp fr fe fc u,
+Lemma map_unit4_wf : forall fp fr fe fc ft u,
   (forall t, P t -> P (fp t)) -> (forall t, P t -> P (fr t)) ->
   (forall t, P t -> P (fe t)) -> (forall t, P t -> P (fc t)) ->
-  Forall P (types_of_unit u) -> Forall P (types_of_unit (map_unit4 fp fr fe fc u)).
+  Forall P (types_of_unit u) -> Forall P (types_of_unit (map_unit5 fp fr fe fc ft u)).
 Proof.
-  intros fp fr fe fc u Hp Hr He Hc W. rewrite map_unit4_eq. apply unit_map_wf; try assumption.
+  intros fp fr fe fc ft u Hp Hr He Hc W. rewrite map_unit4_eq. apply unit_map_wf; try assumption.
   - intros c Wc. apply Hc; assumption.
   - intros _ f Wf. apply map_func_wf; [|assumption]. intros; apply map_sig3_wf; assumption.
   - intros c Wc. apply Hc; assumption.
   - intros f Wf. apply map_func_wf; [|assumption]. intros; apply map_sig3_wf; assumption.
 Qed.
-Lemma map_unit4_wider : forall H fp fr fe fc u,
+Lemma map_unit4_wider : forall H fp fr fe fc ft u,
   (forall t, P t -> wider H t (fp t)) -> (forall t, P t -> wider H t (fr t)) ->
   (forall t, P t -> wider H t (fc t)) ->
-  Forall P (types_of_unit u) -> unit_wider H u (map_unit4 fp fr fe fc u).
+  Forall P (types_of_unit u) -> unit_wider H u (map_unit5 fp fr fe fc ft u).
 Proof.
-  intros H fp fr fe fc u Hp Hr Hc W. rewrite map_unit4_eq. apply (unit_map_wider H); try assumption.
+  intros H fp fr fe fc ft u Hp Hr Hc W. rewrite map_unit4_eq. apply (unit_map_wider H); try assumption.
   - intros c Wc. split; [reflexivity | apply Hc; assumption].
   - intros _ f Wf. eapply map_func_wider; [|eassumption]. intros; eapply map_sig3_wider; eassumption.
   - intros c Wc. split; [reflexivity | apply Hc; assumption].
@@ -1331,17 +1384,18 @@ Proof.
   - intros E; inversion E; subst; auto.
 Qed.
 Lemma stripped_eqb_iff : forall a b, stripped_eqb a b = true <->
-  s_params a = s_params b /\ s_star a = s_star b /\ s_starstar a = s_starstar b.
+  s_params a = s_params b /\ s_star a = s_star b /\ s_starstar a = s_starstar b /\ s_template a = s_template b.
 Proof.
   intros a b. unfold stripped_eqb.
-  rewrite !andb_true_iff, (list_eqb_eq param_eqb param_eqb_eq), !(option_eqb_eq param_eqb param_eqb_eq). tauto.
+  rewrite !andb_true_iff, (list_eqb_eq param_eqb param_eqb_eq), !(option_eqb_eq param_eqb param_eqb_eq),
+    (list_eqb_eq ty_eqb ty_eqb_eq). tauto.
 Qed.
 Lemma sig_eqb_eq : forall a b, sig_eqb a b = true <-> a = b.
 Proof.
   intros a b. unfold sig_eqb. rewrite !andb_true_iff, stripped_eqb_iff, ty_eqb_eq, (list_eqb_eq ty_eqb ty_eqb_eq).
   destruct a, b; simpl. split.
-  - intros [[[? [? ?]] ?] ?]; congruence.
-  - intros E; inversion E; subst; auto.
+  - intros [[[? [? [? ?]]] ?] ?]; congruence.
+  - intros E; inversion E; subst; repeat split; reflexivity.
 Qed.
 
 (* de-duplication keeps a representative of everything *)
@@ -1400,6 +1454,9 @@ Proof.
   - change (kind_eqb k k0 && Nat.eqb c c0 && tys_py_eqb ps ps0 = true) in E.
     rewrite !andb_true_iff, kind_eqb_eq, Nat.eqb_eq in E. destruct E as [[-> ->] E].
     destruct (tys_py_eqb_pw H ps H0 _ E) as [Pw L]. apply wider_call; assumption.
+  - change (Nat.eqb n n0 && Nat.eqb sc sc0 && Bool.eqb hb hb0 && tys_py_eqb ps ps0 = true) in E.
+    rewrite !andb_true_iff, !Nat.eqb_eq, Bool.eqb_true_iff in E. destruct E as [[[-> ->] ->] E].
+    destruct (tys_py_eqb_pw H ps H0 _ E) as [Pw L]. apply wider_var; assumption.
 Qed.
 
 Lemma tys_py_eqb_refl : forall l, Forall (fun a => py_eqb a a = true) l -> tys_py_eqb l l = true.
@@ -1417,6 +1474,8 @@ Proof.
     rewrite (proj2 (kind_eqb_eq k k) eq_refl), Nat.eqb_refl, tys_py_eqb_refl; auto.
   - change (kind_eqb k k && Nat.eqb c c && tys_py_eqb ps ps = true).
     rewrite (proj2 (kind_eqb_eq k k) eq_refl), Nat.eqb_refl, tys_py_eqb_refl; auto.
+  - change (Nat.eqb n n && Nat.eqb sc sc && Bool.eqb hb hb && tys_py_eqb ps ps = true).
+    rewrite !Nat.eqb_refl, Bool.eqb_reflx, tys_py_eqb_refl; auto.
 Qed.
 
 (* ================================================================== function-level passes *)
@@ -1443,7 +1502,7 @@ Proof.
   intros H f. unfold func_wider, combine_returns_f; simpl. repeat split. intros s Hs.
   destruct (dedup_by_cover stripped_eqb stripped_eqb_refl _ _ Hs) as [s0 [H0 E]].
   exists (combine_group (f_sigs f) s0). split; [apply in_map; assumption|].
-  apply stripped_eqb_iff in E. destruct E as [E1 [E2 E3]].
+  apply stripped_eqb_iff in E. destruct E as [E1 [E2 [E3 E4]]].
   unfold sig_wider, combine_group; simpl. rewrite <- E1, <- E2, <- E3. repeat split.
   - apply Forall2_refl. apply param_wider_refl.
   - apply oparam_wider_refl.
@@ -1518,10 +1577,10 @@ Qed.
 
 Lemma map_funcs_unit_eq : forall g u,
   map_funcs_unit g u = unit_map (fun c => c) (fun _ => g) (fun c => c) g u.
-Proof. intros g [cs cls fs]. unfold map_funcs_unit, unit_map; simpl. rewrite map_id. reflexivity. Qed.
+Proof. intros g [cs cls fs]. unfold map_funcs_unit, unit_map, unit_map_t; simpl. rewrite map_id. reflexivity. Qed.
 Lemma normalize_self_eq : forall u,
   normalize_self u = unit_map (fun c => c) (fun cls => map_func (normalize_self_sig cls)) (fun c => c) (fun f => f) u.
-Proof. intros [cs cls fs]. unfold normalize_self, unit_map; simpl. rewrite !map_id. reflexivity. Qed.
+Proof. intros [cs cls fs]. unfold normalize_self, unit_map, unit_map_t; simpl. rewrite !map_id. reflexivity. Qed.
 
 Lemma adjust_self_no_classes : forall u, u_classes u = [] -> adjust_self u = u.
 Proof. intros [cs cls fs] E; simpl in E; subst. reflexivity. Qed.
@@ -1542,6 +1601,198 @@ Proof.
   rewrite map_map. simpl. exact B.
 Qed.
 
+(* ================================================================== MergeTypeParameters *)
+Lemma map_opt_s_Forall2 : forall {A B} (f : A -> option B) l l',
+  map_opt_s f l = Some l' -> Forall2 (fun a b => f a = Some b) l l'.
+Proof.
+  intros A B f. induction l as [|x r IH]; intros l' E; simpl in E.
+  - inversion E; constructor.
+  - destruct (f x) eqn:Ex; [|discriminate]. destruct (map_opt_s f r) eqn:Er; [|discriminate].
+    inversion E; subst. constructor; [assumption | apply IH; reflexivity].
+Qed.
+Lemma Forall2_pw : forall H (R : ty -> ty -> Prop) l l',
+  Forall2 R l l' -> (forall x y, In x l -> R x y -> wider H x y) -> pw H l l' /\ length l' = length l.
+Proof.
+  intros H R l l' F. induction F; intros Hw; simpl.
+  - split; [constructor | reflexivity].
+  - destruct IHF as [P L]; [intros; apply Hw; [right|]; assumption|].
+    split; [constructor; [apply Hw; [left; reflexivity | assumption] | assumption] | lia].
+Qed.
+Lemma assoc_ty_In : forall sg t v, assoc_ty sg t = Some v -> In (t, v) sg.
+Proof.
+  induction sg as [|[k w] r IH]; intros t v E; simpl in E; [discriminate|].
+  destruct (ty_eqb k t) eqn:Ek.
+  - apply ty_eqb_eq in Ek. inversion E; subst. left; reflexivity.
+  - right. apply IH; assumption.
+Qed.
+
+Lemma Forall2_impl : forall {A B} (R R' : A -> B -> Prop) l l',
+  (forall a b, R a b -> R' a b) -> Forall2 R l l' -> Forall2 R' l l'.
+Proof. intros A B R R' l l' Hi F. induction F; constructor; auto. Qed.
+
+Definition sg_ok (H : hier) (sg : list (ty * ty)) : Prop := forall k v, In (k, v) sg -> wider H k v.
+
+Lemma subst_wider : forall H sg, sg_ok H sg -> forall t t', subst sg t = Some t' -> wider H t t'.
+Proof.
+  intros H sg OK. induction t using ty_ind'; intros t' E; simpl in E;
+    try (inversion E; subst; apply wider_refl).
+  - destruct (map_opt_s (subst sg) ts) as [l|] eqn:Em; [|discriminate]. simpl in E. inversion E; subst.
+    apply map_opt_s_Forall2 in Em.
+    destruct (Forall2_pw H _ _ _ Em) as [P L].
+    { intros x y Hin Ex. rewrite Forall_forall in H0. apply H0; assumption. }
+    intros v A. apply norm_union_admits. apply (union_pw H ts l P L). exact A.
+  - destruct (map_opt_s (subst sg) ps) as [l|] eqn:Em; [|discriminate]. simpl in E. inversion E; subst.
+    apply map_opt_s_Forall2 in Em.
+    destruct (Forall2_pw H _ _ _ Em) as [P L].
+    { intros x y Hin Ex. rewrite Forall_forall in H0. apply H0; assumption. }
+    apply wider_gen; assumption.
+  - destruct (map_opt_s (subst sg) ps) as [l|] eqn:Em; [|discriminate]. simpl in E. inversion E; subst.
+    apply map_opt_s_Forall2 in Em.
+    destruct (Forall2_pw H _ _ _ Em) as [P L].
+    { intros x y Hin Ex. rewrite Forall_forall in H0. apply H0; assumption. }
+    apply wider_tup; assumption.
+  - destruct (map_opt_s (subst sg) ps) as [l|] eqn:Em; [|discriminate]. simpl in E. inversion E; subst.
+    apply map_opt_s_Forall2 in Em.
+    destruct (Forall2_pw H _ _ _ Em) as [P L].
+    { intros x y Hin Ex. rewrite Forall_forall in H0. apply H0; assumption. }
+    apply wider_call; assumption.
+  - destruct (map_opt_s (subst sg) ps) as [l|] eqn:Em; [|discriminate].
+    apply map_opt_s_Forall2 in Em.
+    destruct (Forall2_pw H _ _ _ Em) as [P L].
+    { intros x y Hin Ex. rewrite Forall_forall in H0. apply H0; assumption. }
+    eapply wider_trans; [apply (wider_var H n sc hb ps l P L)|].
+    apply OK. apply assoc_ty_In. exact E.
+Qed.
+
+Lemma subst_param_wider : forall H sg p p', sg_ok H sg -> subst_param sg p = Some p' -> param_wider H p p'.
+Proof.
+  intros H sg p p' OK E. unfold subst_param in E.
+  destruct (subst sg (p_ty p)) as [t|] eqn:Et; [|discriminate].
+  destruct (p_mut p) as [m|] eqn:Em.
+  - destruct (subst sg m) as [m'|] eqn:Es; simpl in E; [|discriminate]. inversion E; subst.
+    unfold param_wider; simpl. rewrite Em. repeat split; eapply subst_wider; eassumption.
+  - inversion E; subst. unfold param_wider; simpl. rewrite Em. repeat split. eapply subst_wider; eassumption.
+Qed.
+Lemma subst_oparam_wider : forall H sg p p', sg_ok H sg -> subst_oparam sg p = Some p' -> oparam_wider H p p'.
+Proof.
+  intros H sg [p|] p' OK E; simpl in E.
+  - destruct (subst_param sg p) eqn:Ep; simpl in E; [|discriminate]. inversion E; subst. simpl.
+    eapply subst_param_wider; eassumption.
+  - inversion E; subst. exact I.
+Qed.
+Lemma subst_sig_wider : forall H sg tmpl s s', sg_ok H sg -> subst_sig sg tmpl s = Some s' -> sig_wider H s s'.
+Proof.
+  intros H sg tmpl s s' OK E. unfold subst_sig in E.
+  destruct (map_opt (subst_param sg) (s_params s)) as [ps|] eqn:E1; [|discriminate].
+  destruct (subst_oparam sg (s_star s)) as [st|] eqn:E2; [|discriminate].
+  destruct (subst_oparam sg (s_starstar s)) as [ss|] eqn:E3; [|discriminate].
+  destruct (subst sg (s_ret s)) as [r|] eqn:E4; [|discriminate].
+  destruct (map_opt (subst sg) (s_exc s)) as [ex|] eqn:E5; [|discriminate].
+  destruct (map_opt (subst sg) tmpl) as [tm|] eqn:E6; [|discriminate].
+  inversion E; subst. unfold sig_wider; simpl. repeat split.
+  - apply map_opt_Forall2 in E1. eapply Forall2_impl; [|exact E1].
+    intros a b Eab. eapply subst_param_wider; eassumption.
+  - eapply subst_oparam_wider; eassumption.
+  - eapply subst_oparam_wider; eassumption.
+  - eapply subst_wider; eassumption.
+Qed.
+
+Lemma wf_param_Itrue : forall p, wf_param Itrue p.
+Proof. intros p. split; [exact I | destruct (p_mut p); exact I]. Qed.
+Lemma wf_sig_Itrue : forall s, wf_sig Itrue s.
+Proof.
+  intros s. unfold wf_sig. repeat split; try exact I.
+  - apply Forall_forall. intros; apply wf_param_Itrue.
+  - destruct (s_star s); simpl; [apply wf_param_Itrue | exact I].
+  - destruct (s_starstar s); simpl; [apply wf_param_Itrue | exact I].
+  - apply Itrue_all.
+Qed.
+Lemma unbounded_admits : forall H t v, unbounded_var t -> admits H t v.
+Proof. intros H t v [n [sc [hb ->]]]. exact I. Qed.
+
+Lemma mtp_item_ok : forall H fuel m ct st acc item acc',
+  Forall unbounded_var ct ->
+  (forall tm sg, acc = Some (tm, sg) -> sg_ok H sg) ->
+  mtp_item fuel m (fun t => memb t ct && negb (memb t st)) acc item = acc' ->
+  forall tm sg, acc' = Some (tm, sg) -> sg_ok H sg.
+Proof.
+  intros H fuel m ct st acc item acc' U OK E tm sg E'. subst acc'. unfold mtp_item in E'.
+  destruct acc as [[tm0 sg0]|]; [|discriminate].
+  destruct (all_containing fuel m item []) as [[cont seen]|]; [|discriminate].
+  destruct (filter (fun t => memb t ct && negb (memb t st)) cont) as [|x cps] eqn:Ef.
+  - inversion E'; subst. eapply OK; reflexivity.
+  - inversion E'; subst. intros k v [Ekv|Hin].
+    + inversion Ekv; subst. intros w _. apply (join_widens H (x :: cps) x); [left; reflexivity|].
+      apply unbounded_admits.
+      assert (Hx : In x (filter (fun t => memb t ct && negb (memb t st)) cont)) by (rewrite Ef; left; reflexivity).
+      apply filter_In in Hx. destruct Hx as [_ Hx]. apply andb_true_iff in Hx. destruct Hx as [Hx _].
+      apply memb_In in Hx. rewrite Forall_forall in U. apply U; assumption.
+    + eapply OK; [reflexivity | eassumption].
+Qed.
+
+Lemma mtp_fold_ok : forall H fuel m ct st items acc tm sg,
+  Forall unbounded_var ct ->
+  (forall tm sg, acc = Some (tm, sg) -> sg_ok H sg) ->
+  fold_left (mtp_item fuel m (fun t => memb t ct && negb (memb t st))) items acc = Some (tm, sg) ->
+  sg_ok H sg.
+Proof.
+  intros H fuel m ct st items; induction items as [|it r IH]; intros acc tm sg U OK E; simpl in E.
+  - eapply OK; eassumption.
+  - eapply IH; [exact U | | exact E].
+    intros tm' sg' E'. eapply (mtp_item_ok H fuel m ct st acc it); eauto.
+Qed.
+
+Lemma mtp_sig_wider : forall H ct s s', Forall unbounded_var ct -> mtp_sig ct s = Some s' -> sig_wider H s s'.
+Proof.
+  intros H ct s s' U E. unfold mtp_sig in E.
+  match type of E with context [fold_left ?f ?l ?a] => destruct (fold_left f l a) as [[tm sg]|] eqn:Ef end;
+    [|discriminate].
+  destruct (subst_sig sg tm s) as [s1|] eqn:Es; simpl in E; [|discriminate]. inversion E; subst.
+  assert (OK : sg_ok H sg).
+  { eapply (mtp_fold_ok H _ _ ct (s_template s)); [exact U | | exact Ef].
+    intros tm0 sg0 E0. inversion E0; subst. intros k v Hin. apply in_map_iff in Hin.
+    destruct Hin as [x [Ex _]]. inversion Ex; subst. apply wider_refl. }
+  eapply sig_wider_trans; [eapply subst_sig_wider; eassumption|].
+  unfold map_sig. apply (map_sig3_wider Itrue); try (intros; apply simplify_unions_widens_lemma).
+  apply wf_sig_Itrue.
+Qed.
+
+Lemma mtp_func_wider : forall H ct f f', Forall unbounded_var ct -> mtp_func ct f = Some f' -> func_wider H f f'.
+Proof.
+  intros H ct f f' U E. unfold mtp_func in E.
+  destruct (map_opt (mtp_sig ct) (f_sigs f)) as [ss|] eqn:Em; simpl in E; [|discriminate]. inversion E; subst.
+  unfold func_wider; simpl. repeat split. intros s Hs. apply map_opt_Forall2 in Em.
+  clear E. induction Em; [contradiction|]. destruct Hs as [<-|Hs].
+  - exists y. split; [left; reflexivity | eapply mtp_sig_wider; eassumption].
+  - destruct (IHEm Hs) as [s' [Hin W]]. exists s'. split; [right; assumption | assumption].
+Qed.
+
+Lemma merge_type_parameters_wider : forall H u u',
+  unb_classes u -> merge_type_parameters u = Some u' -> unit_wider H u u' /\ hier_of u' = hier_of u.
+Proof.
+  intros H u u' U E. unfold merge_type_parameters in E.
+  destruct (map_opt mtp_class (u_classes u)) as [cs|] eqn:Ec; [|discriminate].
+  destruct (map_opt (mtp_func []) (u_funcs u)) as [fs|] eqn:Ef; [|discriminate]. inversion E; subst.
+  apply map_opt_Forall2 in Ec. apply map_opt_Forall2 in Ef.
+  assert (C : Forall2 (class_wider H) (u_classes u) cs /\ map (fun c => (cl_name c, map snd (cl_bases c))) cs
+              = map (fun c => (cl_name c, map snd (cl_bases c))) (u_classes u)).
+  { unfold unb_classes in U. clear Ef E. induction Ec; [split; [constructor | reflexivity]|].
+    inversion U as [|? ? Ux Ur]; subst. destruct (IHEc Ur) as [F M]. unfold mtp_class in H0.
+    destruct (map_opt (mtp_func (cl_template x)) (cl_methods x)) as [ms|] eqn:Em; simpl in H0; [|discriminate].
+    inversion H0; subst. split.
+    - constructor; [|assumption]. unfold class_wider; simpl. repeat split.
+      + apply map_opt_Forall2 in Em. eapply Forall2_impl; [|exact Em]. intros a b Eab.
+        eapply mtp_func_wider; eassumption.
+      + apply Forall2_refl. apply const_wider_refl.
+    - simpl. rewrite M. reflexivity. }
+  destruct C as [C M]. split.
+  - unfold unit_wider; simpl. repeat split.
+    + apply Forall2_refl. apply const_wider_refl.
+    + exact C.
+    + eapply Forall2_impl; [|exact Ef]. intros a b Eab. eapply mtp_func_wider; [constructor | eassumption].
+  - unfold hier_of; simpl. exact M.
+Qed.
+
 (* ================================================================== one pass, then the pipeline *)
 Lemma hier_of_classes_nil : forall u, hier_of u = [] -> u_classes u = [].
 Proof. intros u E. unfold hier_of in E. destruct (u_classes u); [reflexivity | discriminate]. Qed.
@@ -1549,7 +1800,7 @@ Proof. intros u E. unfold hier_of in E. destruct (u_classes u); [reflexivity | d
 Lemma run_pass_sound : forall k cs o Hd p u u',
   run_pass cs o Hd p u = Some u' ->
   ranked (hier_of u ++ Hd) ->
-  (p = PAdjustSelf -> hier_of u = []) ->
+  (p = PAdjustSelf \/ p = PMergeTypeParameters -> hier_of u = []) ->
   (needs_wf p = true -> wf_unit k u) ->
   unit_wider (hier_of u ++ Hd) u u' /\ hier_of u' = hier_of u /\
   (wf_unit k u -> keeps_wf p = true -> wf_unit k u').
@@ -1622,15 +1873,13 @@ Proof.
     + apply unit_map_hier.
     + intros W _. apply unit_map_wf; auto; intros; (apply map_func_wf; [|assumption]);
         intros; apply absorb_sig_wf; assumption.
-  - (* MergeTypeParameters *)
-    split; [|split].
-    + apply (map_unit4_wider Itrue); try (intros; apply simplify_unions_widens_lemma);
-        try (intros; apply wider_refl). apply Itrue_all.
-    + apply unit_map_hier.
-    + intros W _. apply map_unit4_wf; try assumption; try (intros; assumption);
-        intros; apply simplify_unions_wf; assumption.
+  - (* MergeTypeParameters: guarded by remove_mutable, where the unit has no classes *)
+    assert (U : unb_classes u).
+    { unfold unb_classes. rewrite (hier_of_classes_nil u (NC (or_intror eq_refl))). constructor. }
+    destruct (merge_type_parameters_wider H u u' U E) as [W Hh].
+    split; [exact W | split; [exact Hh | intros _ D; discriminate]].
   - (* AdjustSelf: guarded by remove_mutable, where the unit has no classes *)
-    rewrite adjust_self_no_classes by (apply hier_of_classes_nil; apply NC; reflexivity).
+    rewrite adjust_self_no_classes by (apply hier_of_classes_nil; apply NC; left; reflexivity).
     split; [apply unit_wider_refl | split; [reflexivity | intros; assumption]].
   - (* LookupClasses *)
     split; [|split].
@@ -1662,7 +1911,7 @@ Proof.
     destruct (forallb (enabled o) fl) eqn:En.
     + destruct (run_pass cs o Hd p u) as [u1|] eqn:E1; [|discriminate].
       destruct (run_pass_sound k cs o Hd p u u1 E1 R) as [W1 [H1 K1]].
-      * intros ->. apply RM. eapply enabled_remove_mutable; [exact En | exact OK2].
+      * intros [-> | ->]; apply RM; (eapply enabled_remove_mutable; [exact En | exact OK2]).
       * intros Nw. apply W. rewrite Nw in OK1. simpl in OK1. exact OK1.
       * eapply unit_wider_trans; [exact W1|]. rewrite <- H1.
         apply (IH (wfok && keeps_wf p) u1 u'); try assumption.
